@@ -256,3 +256,27 @@ def heavy_nontrivial(mol):
     """a rough non-triviality score used for evidence: rings, stereo labels, charges"""
     return (mol.rings_count, sum(a.stereo is not None for _, a in mol.atoms()) + mol._cis_trans_count,
             sum(bool(a.charge) for _, a in mol.atoms()))
+
+
+def ring_diene_ct(mol, only=None):
+    """labelled cis/trans double bonds (as frozenset of terminals) that lie in a ring and share a direction-bearing
+    single bond with another labelled cis/trans double bond (conjugated diene).  This is the call-site signature of
+    the recorded writer finding `ring-diene-writer` (MoleculeSmiles.__ct_map): when such a bond is written as a
+    ring-closure bond after its partner, both ends get their marks independently."""
+    out = set()
+    centers = mol._stereo_cis_trans_centers
+    labelled = {}
+    for (n, m), env in mol.stereogenic_cis_trans.items():
+        i, j = centers[n]
+        if mol._bonds[i][j].stereo is not None:
+            labelled[(n, m)] = env
+    terminals = {t for nm in labelled for t in nm}
+    for (n, m), env in labelled.items():
+        i, j = centers[n]
+        if not mol._bonds[i][j].in_ring:
+            continue
+        if any(x is not None and x in terminals and x not in (n, m) for x in env):
+            out.add(frozenset((n, m)))
+    if only is not None:
+        return only in out
+    return out
